@@ -15,6 +15,9 @@ DICT = ["#if", "#ifdef", "#ifndef", "#elif", "#else", "#endif", "#define", "#und
         "struct nn::", "class ::q::", "enum e::", "#pragma pop_macro(\"x\")", "#pragma push_macro(\"x\")", "auto", "const", "volatile", "mutable", "static", "inline", "explicit", "concept", "requires", "this", "nullptr", "true", "false", "\x00", "\xff", "\r\n", "\t", "\n"]
 
 EDGE = [
+    "class K {\n__published:\n  void f(int a, bool b = true);\n  void f(int a);\n};\n", "class N {\n__published:\n  N(const N &o, int depth = 0);\n};\n",
+    "class N {\n__published:\n  N(const N &a, int i, bool d = true);\n  N(const N &b, int depth = 0);\n  N(N &&m, int k = 1);\n};\n",
+
     "#if 1/0\n#endif\n", "#if 1%0\n#endif\n", "#if (\n#endif\n", "#if 1 ? 2\n#endif\n", "#if defined(\n#endif\n", "#if defined\n#endif\n", "#if __has_include(\n#endif\n",
     "#if __has_include(<\n#endif\n", "#if 1 ^ 2\n#endif\n", "#if ~0 && !1 || 2 <=> 3\n#endif\n", "#if 0x\n#endif\n", "#if 'a\n#endif\n", "#if \"s\" == 1\n#endif\n",
     "#else\n", "#endif\n", "#elif 1\n", "#if 1\n", "#if 0\n/* open", "#if 0\n#else\n/* open", "#ifdef\n#endif\n", "#ifndef\n", "#define\n", "#define (\n", "#define F(\n", "#define F(a,\n",
